@@ -386,10 +386,6 @@ def run(ctx):
             continue
         ctx.traces_validated += 1
         st, fld = parse_fields(model[i])
-        if target == "MP4" and st == "ok" and real == "err:mutagen" and b"chpl" in data:
-            # MP4Chapters.load (Nero `chpl`) runs after the tags under `except Exception: error`; not in the model
-            ctx.hist["MP4:chapters-not-modelled"] += 1
-            continue
         if st != real:
             ctx.disagree("ftype:%s outcome" % target, case, model=model[i], impl=real + (" " + str(r)[:80] if k != "ok" else ""))
         elif real == "ok" and fld.get("tags", "-") != "-":
@@ -414,9 +410,6 @@ def run(ctx):
         m = model[len(lines) + j]
         st, fld = parse_fields(m)
         ctx.traces_validated += 1
-        if fld.get("pick") == "MP4" and st == "ok" and real == "err:mutagen" and b"chpl" in data:
-            ctx.hist["MP4:chapters-not-modelled"] += 1
-            continue
         if st != real:
             ctx.disagree("File outcome", case, model=m, impl=real + (" " + str(r)[:80] if k != "ok" else ""))
         elif real == "ok":
